@@ -43,6 +43,7 @@ func runC17(p *Prog, r *Report) {
 	c17Exhaustive(p, r)
 	c17SiblingDecoders(p, r)
 	c17ListOrSingle(p, r)
+	c17ReservedComponent(p, r)
 }
 
 func c17TypeCodec(p *Prog, r *Report) {
@@ -717,4 +718,92 @@ func c17ListOrSingle(p *Prog, r *Report) {
 	if n < 2 {
 		r.Undec(rule, "schemaparser:list-or-single", "-", "expected at least two list-or-single productions, found "+itoa(n))
 	}
+}
+
+// R17.8 — a reserved name is matched as a whole path component. The schema grammar reserves the
+// *component* `__cedar`; `my__cedar_v1` is an ordinary identifier that the printer, the JSON codec
+// and the resolver all handle. A parser that rejects input because a name *contains* (or starts or
+// ends with) a reserved word rejects its own printer's output for such names. Any rejection in the
+// schema and policy text parsers that is decided by a substring / prefix / suffix test against a
+// bare identifier constant is reported; tests against a delimited constant (`__cedar::`) and
+// comparisons of whole components are what the grammar means.
+func c17ReservedComponent(p *Prog, r *Report) {
+	const rule = "R17.8-reserved-name-is-a-component"
+	pkgs := map[string]bool{pSchemaPar: true, pParser: true, pResolved: true}
+	identLike := func(s string) bool {
+		if s == "" {
+			return false
+		}
+		for i, ch := range s {
+			if !(ch == '_' || (ch >= 'a' && ch <= 'z') || (ch >= 'A' && ch <= 'Z') || (i > 0 && ch >= '0' && ch <= '9')) {
+				return false
+			}
+		}
+		return len(s) >= 3
+	}
+	n, whole := 0, 0
+	var fns []*ssa.Function
+	for _, fn := range p.Funcs {
+		if pkgs[fnPkgPath(fn)] && len(fn.Blocks) > 0 {
+			fns = append(fns, fn)
+		}
+	}
+	sort.Slice(fns, func(i, j int) bool { return fns[i].String() < fns[j].String() })
+	for _, fn := range fns {
+		for _, cl := range callsIn(fn) {
+			c, ok := cl.(*ssa.Call)
+			if !ok {
+				continue
+			}
+			cal := c.Call.StaticCallee()
+			if cal == nil {
+				continue
+			}
+			name := fnPkgPath(cal) + "." + cal.Name()
+			switch name {
+			case "strings.Contains", "strings.HasPrefix", "strings.HasSuffix", "strings.Index", "strings.LastIndex", "strings.Count":
+				if len(c.Call.Args) != 2 {
+					continue
+				}
+				k, ok := constString(c.Call.Args[1])
+				if !ok || !identLike(k) {
+					continue
+				}
+				// does the answer decide a rejection?
+				rejects := false
+				for _, b := range fn.Blocks {
+					ret, ok := lastInstr(b).(*ssa.Return)
+					if !ok || len(ret.Results) == 0 {
+						continue
+					}
+					ev := ret.Results[len(ret.Results)-1]
+					if !isErrorType(ev.Type()) || !freshError(ev, 0) {
+						continue
+					}
+					for _, g := range guardsAt(b) {
+						if dependsOnValue(g.Cond, c) {
+							rejects = true
+						}
+					}
+				}
+				if !rejects {
+					continue
+				}
+				n++
+				r.Viol(rule, fnQual(fn)+":"+k, p.pos(c.Pos()), fnShort(fn)+" rejects input after a strings."+strings.TrimPrefix(name, "strings.")+" test against the reserved word `"+k+"`, i.e. on a substring match: only the whole path component is reserved, so identifiers such as `my"+k+"_v1` — which the printer and the JSON codec emit unchanged — no longer parse back")
+			default:
+				if fnPkgPath(cal) == "slices" && strings.HasPrefix(cal.Name(), "Contains") && len(c.Call.Args) == 2 {
+					if k, ok := constString(c.Call.Args[1]); ok && identLike(k) {
+						n++
+						whole++
+						r.OK(rule, fnQual(fn)+":"+k, p.pos(c.Pos()), "the reserved word `"+k+"` is looked for among whole path components")
+					}
+				}
+			}
+		}
+	}
+	if n == 0 {
+		r.OK(rule, "text-parsers:no-substring-rejection", "-", "no rejection in the text parsers is decided by a substring test against a bare reserved word")
+	}
+	_ = whole
 }
